@@ -45,19 +45,22 @@ def replace (drops : Bool) (c : Cols) (i : Nat) (e : Cols) : Out :=
 /-- `remove`: per-field `remove(index)`, reassembled -/
 def remove (c : Cols) (i : Nat) : Out :=
   let r := c.apply2 (removeOp i) (noArgs c)
-  if r.panicked then { st := r.st, panicked := true } else { st := r.st, ret := some r.out }
+  if r.panicked then { st := r.st, panicked := true, ev := dropFields r.out }
+  else { st := r.st, ret := some r.out }
 
 /-- `swap_remove`: per-field `swap_remove(index)`, reassembled -/
 def swapRemove (c : Cols) (i : Nat) : Out :=
   let r := c.apply2 (swapRemoveOp i) (noArgs c)
-  if r.panicked then { st := r.st, panicked := true } else { st := r.st, ret := some r.out }
+  if r.panicked then { st := r.st, panicked := true, ev := dropFields r.out }
+  else { st := r.st, ret := some r.out }
 
 /-- `pop`: `None` when `is_empty()`, else per-field `pop().unwrap()` -/
 def pop (c : Cols) : Out :=
   if c.firstLen = 0 then { st := c, isNone := true }
   else
     let r := c.apply2 popOp (noArgs c)
-    if r.panicked then { st := r.st, panicked := true } else { st := r.st, ret := some r.out }
+    if r.panicked then { st := r.st, panicked := true, ev := dropFields r.out }
+  else { st := r.st, ret := some r.out }
 
 /-- `truncate(len)`: `while self.len() > len { drop(self.pop()) }` — every discarded element
     is reassembled and destroyed as a whole struct value -/
@@ -66,7 +69,7 @@ def truncateLoop (drops : Bool) (k : Nat) : Nat → Cols → Ev → Out
   | fuel + 1, c, ev =>
     if c.firstLen > k then
       let r := pop c
-      if r.panicked then { st := r.st, panicked := true, ev := ev }
+      if r.panicked then { st := r.st, panicked := true, ev := ev ++ r.ev }
       else match r.ret with
         | some e => truncateLoop drops k fuel r.st (ev ++ dropWhole drops e)
         | none => { st := r.st, ev := ev }
@@ -89,7 +92,8 @@ def append (c d : Cols) : Out :=
 /-- `split_off(at)`: per-field `split_off(at)` collected into a new vector -/
 def splitOff (c : Cols) (at_ : Nat) : Out :=
   let r := c.apply2 (splitOffOp at_) (noArgs c)
-  if r.panicked then { st := r.st, panicked := true } else { st := r.st, ret := some r.out }
+  if r.panicked then { st := r.st, panicked := true, ev := dropFields r.out }
+  else { st := r.st, ret := some r.out }
 
 /-- the element at position `i`, as the callback sees it (`slice.get(i).unwrap()`) -/
 def rowAt (c : Cols) (i : Nat) : List Nat := (c.apply2 (pickOp [i]) (noArgs c)).out.flat
